@@ -79,6 +79,52 @@ def dwarf_values(vd, drv, wd):
                 vd.observe("order law %s broken among DWARF values of %s" % (law, f), {"file": f, "pool": DW_POOL, "output": t.out[-1500:]})
 
 
+def attribute_values(vd, drv, wd):
+    """Attributes as values: all attributes of a generated file whose forms store nothing in the DIE (flag_present:
+    the data pointer is that of the next attribute; implicit_const: the data lives in the abbreviation, shared by
+    every DIE that uses it) or an empty block, and of tests/enum.o.  Different attributes are never equal, and
+    the relation of all pairs obeys the order laws (tla/CmpTrace.tla)."""
+    sys.path.insert(0, os.path.join(common.VERIF, "gen"))
+    import dwarfgen
+    def die(i, tag, attrs, kids=()):
+        return {"id": i, "tag": tag, "children": list(kids), "attrs": attrs}
+    A = lambda n, f, v=None: {"name": n, "form": f, "value": v}
+    same = [A(0x3f, "flag_present"), A(0x0b, "data1", 4), A(0x3a, "implicit_const", 1), A(0x39, "implicit_const", 7), A(3, "string", "v")]
+    kids = [die(10, 0x34, [dict(a) for a in same]), die(11, 0x34, [dict(a) for a in same]),
+            die(12, 0x2e, [A(0x3f, "flag_present"), A(0x27, "flag_present"), A(0x34, "flag_present"), A(3, "string", "f")]),
+            die(13, 0x34, [A(0x1c, "block1", []), A(2, "exprloc", []), A(3, "string", ""), A(0x3f, "flag_present")]),
+            die(14, 0x34, [A(0x3c, "flag_present")])]
+    o, offs, _ = dwarfgen.build({"units": [{"kind": "cu", "version": 5, "table": 0, "root": die(1, 0x11, [A(3, "string", "a.c")], kids)}]}, wd, "attrcmp")
+    q = "(|Dw| [Dw entry attribute] (|L| [L elem (|A| [L elem (|B| (A B ?lt 1 || A B ?eq 2 || A B ?gt 3 || 0))])]))"
+    for f in (o, os.path.join(common.REPO, "tests", "enum.o")):
+        res = zw.run_driver(drv, ["\t".join(["run", "0", "max=5,t=120", zw.hexq(q), f])], wd, tag="attrcmp")
+        r = res[0] if res else None
+        vd.cov["evaluations"] += 1
+        name = os.path.basename(f)
+        if not r or r.get("status") != "ok" or len(r["results"]) != 1 or r.get("soft", 0):
+            vd.observe("comparison of the attributes of %s fails" % name, {"observed": {k: (r or {}).get(k) for k in ("status", "err", "soft")}})
+            continue
+        rows = r["results"][0][-1]["v"]
+        code = {1: -1, 2: 0, 3: 1, 0: 2}
+        mf = os.path.join(wd, "attrmatrix-%s.ndjson" % name)
+        eqpairs = []
+        with open(mf, "w") as fh:
+            for i, row in enumerate(rows):
+                for j, c in enumerate(row["v"]):
+                    fh.write(json.dumps({"a": i + 1, "b": j + 1, "r": code[int(c["v"])]}) + "\n")
+                    if i != j and int(c["v"]) == 2:
+                        eqpairs.append((i, j))
+        if eqpairs:
+            vd.observe("different attributes of %s compare equal" % name, {"pairs (positions in `entry attribute')": eqpairs[:10]})
+        t = tlc.run_tlc("CmpTrace", workers=1, timeout=1500, env={"CMPMATRIX": mf}, heap="8g")
+        m = re.search(r'"CMPALL",\s*\[(.*?)\]', t.out.replace("\n", " "))
+        if not m:
+            raise common.ToolError("CmpTrace failed on the attribute relation of %s\n%s" % (name, t.out[-2000:]))
+        vd.cov["traces_validated_against_impl"] += len(rows) ** 2
+        for law in sorted(re.findall(r"(\w+) \|-> FALSE", m.group(1))):
+            vd.observe("order law %s broken among the attributes of %s" % (law, name), {"output": t.out[-1500:]})
+
+
 def run(tier):
     vd = common.Verdict(PID, tier)
     wd = common.scratch(PID)
@@ -188,6 +234,7 @@ def run(tier):
                 vd.observe(key, {"a": POOL[i][0], "b": POOL[j][0], "elements": rel[(i, j)], "singletons_lt": lt})
     vd.cov["distinct_nontrivial"] = n * (n - 1)
     dwarf_values(vd, drv, wd)
+    attribute_values(vd, drv, wd)
     vd.sample({"pool": [p[0] for p in POOL[:12]]})
     return vd.finish(rule="tla/Cmp.tla: the order laws and the documented specifics for a pool of constants (arithmetic, boolean, "
                      "slot type, ELF families with generic sub-domain), strings and nested sequences, for EVERY order of the "
